@@ -594,6 +594,9 @@ pub fn check(tier: Tier) -> Outcome {
                 }
                 lens.sort();
                 lens.dedup();
+                // one window must fit the default socket receive buffer of the receiving side (~200 KB), otherwise the
+                // kernel drops part of the burst and the run hangs on multi-second retransmission timers
+                lens.retain(|l| (*l).min(ws * blk) <= 140_000);
                 let touts: Vec<u64> = if tier == Tier::Quick { vec![5] } else { vec![1, 5, 255] };
                 cells.push(json!({"srv": s.to_json(), "blk": blk, "wss": [ws], "timeouts": touts, "lens": lens}));
             }
